@@ -169,7 +169,7 @@ func (v objectValidator) validateTypeRules(value jbytes.Bytes) (string, bool) {
 	// match, and with it the verdict.
 	for _, k := range objectNode.Keys().Data {
 		key := k.Key
-		if _, required := v.requiredKeys[key]; !required {
+		if !k.IsShortcut {
 			continue
 		}
 		typ, ok := v.rootSchema.TypesList()[key]
